@@ -420,6 +420,7 @@ def check_C13(P, tier):
     R.add(parser_obligations(P))
     R.add(consumed_obligations(P))
     R.add(load_config_obligation(P))
+    R.add(scratch_memo_obligations(P))
     R.analysed = {"files": ["src/bldfm/interface.py", "src/bldfm/config_parser.py", "src/bldfm/utils.py", "src/bldfm/pbl_model.py", "src/bldfm/solver.py"],
                   "functions": ["run_bldfm_single", "MetConfig.get_step", "_parse_*", "load_config", "parse_config_dict"], "paths": 72}
     return R, "access-path wiring table by abstract interpretation with stubbed stages; sibling default tables"
@@ -718,13 +719,18 @@ def geo_obligations(P, rule="R-GEO"):
     la, lo = lat.top_atoms().pop(), lon.top_atoms().pop()
     obs.append(eq_ob(rule, s_f, "the reference origin maps to x = 0", x.subs({la: rlat, lo: rlon}), ZERO))
     obs.append(eq_ob(rule, s_f, "the reference origin maps to y = 0", y.subs({la: rlat, lo: rlon}), ZERO))
-    dxdlon, dxdlat, dydlon, dydlat = alg.diff(x, lo), alg.diff(x, la), alg.diff(y, lo), alg.diff(y, la)
-    obs.append(req_ob(rule, s_f, "x grows eastward (dx/dlon > 0 at non-polar reference latitudes)", alg.manifest_sign(dxdlon) == {"+"}, detail="dx/dlon = %r" % (dxdlon,)))
-    obs.append(req_ob(rule, s_f, "y grows northward (dy/dlat > 0)", alg.manifest_sign(dydlat) == {"+"}, detail="dy/dlat = %r" % (dydlat,)))
-    obs.append(eq_ob(rule, s_f, "x does not depend on the latitude of the point", dxdlat, ZERO))
-    obs.append(eq_ob(rule, s_f, "y does not depend on the longitude of the point", dydlon, ZERO))
-    obs.append(eq_ob(rule, s_f, "x is linear in longitude with the metric factor taken at the reference latitude", x, dxdlon * (lon - rlon)))
-    obs.append(eq_ob(rule, s_f, "y is linear in latitude", y, dydlat * (lat - rlat)))
+    try:
+        dxdlon, dxdlat, dydlon, dydlat = alg.diff(x, lo), alg.diff(x, la), alg.diff(y, lo), alg.diff(y, la)
+    except NotImplementedError as e:
+        dxdlon = None
+        obs.append(req_ob(rule, s_f, "the transform is differentiable in closed form (linear map expected)", False, detail="contains a non-smooth operation: %s" % e))
+    if dxdlon is not None:
+        obs.append(req_ob(rule, s_f, "x grows eastward (dx/dlon > 0 at non-polar reference latitudes)", alg.manifest_sign(dxdlon) == {"+"}, detail="dx/dlon = %r" % (dxdlon,)))
+        obs.append(req_ob(rule, s_f, "y grows northward (dy/dlat > 0)", alg.manifest_sign(dydlat) == {"+"}, detail="dy/dlat = %r" % (dydlat,)))
+        obs.append(eq_ob(rule, s_f, "x does not depend on the latitude of the point", dxdlat, ZERO))
+        obs.append(eq_ob(rule, s_f, "y does not depend on the longitude of the point", dydlon, ZERO))
+        obs.append(eq_ob(rule, s_f, "x is linear in longitude with the metric factor taken at the reference latitude", x, dxdlon * (lon - rlon)))
+        obs.append(eq_ob(rule, s_f, "y is linear in latitude", y, dydlat * (lat - rlat)))
     # inverse compositions
     lat2, lon2 = geo_inverse(P, x, y, rlat, rlon)
     obs.append(eq_ob(rule, s_g, "xy_to_latlon(latlon_to_xy(lat, lon)) returns the latitude", lat2, lat, "mutual inverses"))
@@ -778,3 +784,81 @@ def check_C17(P, tier):
     R.add(tower_xy_obligations(P))
     R.analysed = {"files": ["src/bldfm/config_parser.py", "src/bldfm/plotting/_geo.py"], "functions": ["latlon_to_xy", "xy_to_latlon", "TowerConfig.compute_local_xy", "BLDFMConfig.__post_init__"], "paths": 6}
     return R, "composition of normal forms is the identity; sign of symbolic derivatives"
+
+
+# --------------------------------------------------------------------------
+# scratch memos handed through run_bldfm_single (shared between the calls of a driver)
+
+KNOWN_SINGLE_PARAMS = ("config", "tower", "met_index", "surface_flux", "cache")
+
+
+def _atoms_of(v, acc=None):
+    acc = set() if acc is None else acc
+    if isinstance(v, Expr):
+        v.atoms(True, acc)
+    elif isinstance(v, Tup):
+        for x in v.items:
+            _atoms_of(x[1] if isinstance(x, tuple) else x, acc)
+    return acc
+
+
+def _dep_stub(P, modname, fname, tag, nout):
+    mod = P.module(modname)
+    fn = P.function(modname, fname)
+
+    def stub(I, args, kwargs, node):
+        try:
+            b = I.bind(mod, fn, list(args), dict(kwargs))
+        except AnalysisError:
+            b = {}
+        flat = []
+        for k in sorted(b):
+            v = b[k]
+            for x in (v.items if isinstance(v, Tup) else [v]):
+                if isinstance(x, Expr):
+                    flat.append(x)
+        outs = [alg.fn("%s_%d" % (tag, i), *flat) for i in range(nout)]
+        return outs[0] if nout == 1 else Tup(outs)
+
+    return stub
+
+
+def scratch_memo_obligations(P, rule="R-MEMO"):
+    """every extra (scratch) argument of run_bldfm_single that is used as a keyed store must be completely keyed"""
+    obs = []
+    fn = P.function("bldfm.interface", "run_bldfm_single")
+    site = "src/bldfm/interface.py::run_bldfm_single"
+    params = [a.arg for a in fn.args.posonlyargs + fn.args.args + fn.args.kwonlyargs]
+    extras = [p for p in params if p not in KNOWN_SINGLE_PARAMS]
+    obs.append(Ob(rule, site, "arguments beyond (config, tower, met_index, surface_flux, cache): %s" % (extras or "none"), "holds", nontrivial=False))
+    for ex in extras:
+        for met_list in (False, True):
+            ov = {"config.domain.output_levels": None, "config.domain.full_output": False, "config.met.z0": None, "config.met.timestamps": None}
+            for f in ("ustar", "mol", "wind_speed", "wind_dir"):
+                ov["config.met." + f] = PyList("config.met." + f) if met_list else alg.sym("config.met." + f)
+            cfg = CM.make_obj(P, "BLDFMConfig", "config", ov)
+            tower = CM.make_obj(P, "TowerConfig", "tower", {})
+            memo = Tup([], "dict")
+            stubs = {
+                "bldfm.utils.compute_wind_fields": _dep_stub(P, "bldfm.utils", "compute_wind_fields", "WIND", 2),
+                "bldfm.pbl_model.vertical_profiles": _dep_stub(P, "bldfm.pbl_model", "vertical_profiles", "PROF", 2),
+                "bldfm.utils.ideal_source": _dep_stub(P, "bldfm.utils", "ideal_source", "SRC", 1),
+                "bldfm.solver.steady_state_transport_solver": _dep_stub(P, "bldfm.solver", "steady_state_transport_solver", "SOLVE", 3),
+            }
+            res = CM.run_paths(P, "bldfm.interface", "run_bldfm_single", [cfg, tower], {"met_index": alg.sym("met_index", integer=True), ex: memo}, stubs=stubs)
+            if not res:
+                obs.append(req_ob(rule, site, "scratch argument %s is interpretable" % ex, None))
+                continue
+            stored = [(k, v) for k, v in memo.items]
+            if not stored:
+                obs.append(Ob(rule, site, "scratch argument %s is never stored into" % ex, "holds", nontrivial=False))
+                continue
+            for k, v in stored:
+                ka, va = _atoms_of(k), _atoms_of(v)
+                leaf = lambda a: a.kind == "sym" or (a.kind == "fn" and a.name == "at")
+                missing = sorted({repr(a) for a in va if leaf(a) and a not in ka and not a.name.startswith("met_index")})
+                # index atoms: at(list, met_index) counts through its own atom
+                ok = not missing
+                obs.append(req_ob(rule, site, "what is memoised in %s depends only on what its key covers (series forcing: %s)" % (ex, met_list), ok,
+                                  detail=None if ok else "stored value also depends on %s" % ", ".join(missing[:6]), key={"scratch": ex}))
+    return obs
